@@ -24,6 +24,41 @@ def extra_programs():
     yield ("builtin/Wrapper/R", lambda: Wrapper(h.R(r=1)))
 
 
+def edited_programs():
+    """modules whose names were re-used for objects of another kind before export"""
+    import hdl21 as h
+
+    E6 = h.ExternalModule(name="E6", port_list=[h.Inout(name="a"), h.Inout(name="b")], desc="", domain="c6")
+
+    def leaf():
+        return E6()
+    kinds = {"signal": lambda: h.Signal(), "port": lambda: h.Port(), "input": lambda: h.Input(),
+             "instance": None}
+    for k1 in ("signal", "port", "input", "instance"):
+        for k2 in ("signal", "port", "input", "instance"):
+            def b(k1=k1, k2=k2):
+                m = h.Module(name="Edited")
+                m.v = h.Signal()
+                m.w = h.Signal()
+                for k in (k1, k2):
+                    if k == "instance":
+                        m.x = leaf()(a=m.v, b=m.w)
+                    else:
+                        m.x = kinds[k]()
+                if k2 != "instance":
+                    m.u = leaf()(a=m.x, b=m.v)
+                m.u2 = leaf()(a=m.v, b=m.w)
+                return m
+            yield (f"edited/x:{k1}->{k2}", b)
+
+
+def faulted_programs():
+    """the single-fault family of C02: a package, if one is returned at all, must still be well-formed"""
+    from props import c02
+    for desc, build in c02.faults():
+        yield ("faulted/" + desc, build)
+
+
 def check_pkg(case):
     import hdl21 as h
     from rtc.wf import wf_package
@@ -43,9 +78,11 @@ def check_pkg(case):
 def run(ctx):
     from props import c01_deductive
     c01_deductive.run(ctx)
-    cases = itertools.chain(design_family(ctx.tier, ctx.seed), extra_programs())
+    cases = itertools.chain(design_family(ctx.tier, ctx.seed), extra_programs(), edited_programs(), faulted_programs())
     ctx.run_bounded("wf_package(to_proto(design))", cases, check_pkg,
-                    rule=RULE + "; plus Series/MosStack/Wrapper over small parameter ranges",
+                    rule=RULE + "; plus Series/MosStack/Wrapper over small parameter ranges; modules whose names were "
+                         "re-used for another kind (16 pairs); the single-fault designs of C02 (a package returned for "
+                         "one of them must still be well-formed)",
                     bound="depth<=3, widths<=4 (8 thorough)", key_of=lambda c: c[0],
                     nontrivial=lambda c: nontrivial(c[0]))
     return INFO
@@ -55,7 +92,7 @@ def replay(payload):
     want = (payload.get("input") or {}).get("design")
     if want:
         for tier in ("quick", "thorough"):
-            for desc, b in itertools.chain(design_family(tier, 0), extra_programs()):
+            for desc, b in itertools.chain(design_family(tier, 0), extra_programs(), edited_programs(), faulted_programs()):
                 if desc == want:
                     r = check_pkg((desc, b))
                     print("replay:", r)
